@@ -33,7 +33,7 @@ func init() {
 		Run:    run,
 		Replay: replay,
 		Rule: "trees from gens.Trees over two leaf alphabets (full: nil, bools, int64 boundaries, floats incl. integral/denormal/max, strings incl. empty/escapes/multi-byte, time.Time UTC and zoned, big number text; reduced: nil, int64, string, time, big) with []any and map[string]any containers (empty and nested empty included); " +
-			"per tree: 13 conversion chains under null-keeping options compared kind-exactly with the pristine tree (a composite is judged only when its first stage is right), oj.JSON and sen.String of the hand-built gen form against the simple form under 3 option vectors (Sort on), " +
+			"per tree: 14 conversion chains under null-keeping options compared kind-exactly with the pristine tree (a composite is judged only when its first stage is right), oj.JSON and sen.String of the hand-built gen form against the simple form under 3 option vectors (Sort on), " +
 			"gen.Parser.Parse against alt.Generify(oj.Parser.Parse) on the rendered tree, and for each of the 5 copying operations one mutate-after-copy experiment per (side, container position, mutation in {replace leaf, overwrite element, append element, add key, delete key}) with a canonical kind-exact snapshot of the other side. " +
 			"distinct_nontrivial = conversion/writer/parser comparisons on trees that are not a bare scalar, plus aliasing experiments; evaluations = executions of ojg conversion, writer and parser entry points",
 		Assumptions: []string{
@@ -1183,6 +1183,7 @@ func run(c *core.Ctx) {
 				return false
 			}
 			c.Add("trees_"+alpha, 1)
+			c.Case(func() string { return "C18 tree " + gens.Show(t) })
 			if sampled < 3 && nodes(t) == n {
 				sampled++
 				c.Sample(map[string]any{"alphabet": alpha, "tree": gens.Show(t), "mutations_per_side": len(mutations(t))})
